@@ -614,7 +614,11 @@ func TestC25(t *testing.T) {
 					h.emit(fmt.Sprintf("alter-field:%s f%d truncate", ho.label, num), ho.k, encFields(withField(ho.fs, bf(num, f.b[:len(f.b)-1]))))
 				}
 			} else {
-				h.emit(fmt.Sprintf("alter-field:%s f%d +1", ho.label, num), ho.k, encFields(withField(ho.fs, vf(num, f.v+1))))
+				for _, nv := range []uint64{f.v + 1, 0, 1, f.v | 1<<63, 1<<64 - 1, 1 << 32} {
+					if nv != f.v {
+						h.emit(fmt.Sprintf("alter-field:%s f%d =%d", ho.label, num, nv), ho.k, encFields(withField(ho.fs, vf(num, nv))))
+					}
+				}
 				h.emit(fmt.Sprintf("alter-field:%s f%d non-minimal", ho.label, num), ho.k, encFields(withField(ho.fs, field{num: num, wt: 0, v: f.v, pad: 2})))
 				h.emit(fmt.Sprintf("alter-field:%s f%d wrong-wire-type", ho.label, num), ho.k, encFields(withField(ho.fs, bf(num, uvarint(f.v)))))
 			}
